@@ -454,9 +454,14 @@ thread_local! {
     static CUR: CaseBuf = const { CaseBuf { len: std::cell::Cell::new(0), buf: std::cell::UnsafeCell::new([0u8; CASE_CAP]) } };
 }
 
-/// remember what this thread is working on (only evaluated inside a worker)
+/// main-process checks of the properties that drive unchecked fast paths keep track of the case
+/// in progress too, so that a fatal signal (undefined behaviour in the shipped flavour) becomes a
+/// VIOLATION with a replay instead of a dead harness
+pub static TRACK: AtomicBool = AtomicBool::new(false);
+
+/// remember what this thread is working on (only evaluated inside a worker or a tracking check)
 pub fn set_case(f: impl FnOnce() -> String) {
-    if !is_worker() {
+    if !is_worker() && !TRACK.load(AtomicOrdering::Relaxed) {
         return;
     }
     let s = f();
@@ -491,6 +496,74 @@ extern "C" fn on_fatal_signal(sig: i32) {
         write(2, b"\n".as_ptr(), 1);
         _exit(100 + sig);
     }
+}
+
+static mut FATAL_PATH: [u8; 160] = [0; 160];
+static mut FATAL_LINE: [u8; 256] = [0; 256];
+static mut FATAL_LINE_LEN: usize = 0;
+static mut FATAL_PROP: [u8; 3] = [0; 3];
+
+extern "C" {
+    fn open(path: *const u8, flags: i32, mode: u32) -> i32;
+    fn close(fd: i32) -> i32;
+}
+
+extern "C" fn on_fatal_signal_main(sig: i32) {
+    unsafe {
+        let line = &*std::ptr::addr_of!(FATAL_LINE);
+        write(1, line.as_ptr(), FATAL_LINE_LEN);
+        // O_WRONLY | O_CREAT | O_TRUNC
+        let fd = open(std::ptr::addr_of!(FATAL_PATH) as *const u8, 0o1 | 0o100 | 0o1000, 0o644);
+        if fd >= 0 {
+            let a = b"{\"property\":\"";
+            write(fd, a.as_ptr(), a.len());
+            write(fd, std::ptr::addr_of!(FATAL_PROP) as *const u8, 3);
+            let b = b"\",\"class\":\"fatal-signal-in-implementation\",\"occurrences\":1,\"detail\":\"the check process received fatal signal ";
+            write(fd, b.as_ptr(), b.len());
+            let digits = [b'0' + (sig / 10) as u8, b'0' + (sig % 10) as u8];
+            write(fd, digits.as_ptr(), 2);
+            let c = b" while executing safe calls of the implementation\",\"case\":{\"kind\":\"fatal\",\"worker_case\":";
+            write(fd, c.as_ptr(), c.len());
+            let mut wrote = false;
+            CUR.with(|cur| {
+                if cur.len.get() > 0 {
+                    write(fd, (*cur.buf.get()).as_ptr(), cur.len.get());
+                    wrote = true;
+                }
+            });
+            if !wrote {
+                write(fd, b"null".as_ptr(), 4);
+            }
+            write(fd, b"}}\n".as_ptr(), 3);
+            close(fd);
+        }
+        _exit(1);
+    }
+}
+
+/// For a property check running in the main process: a fatal signal is reported as a VIOLATION
+/// (exit 1) with a replay file naming the case in progress.  `track` turns on per-case tracking.
+pub fn install_fatal_verdict(prop: &str, track: bool) {
+    if is_worker() || std::env::var("VCHECK_SUBRUN").is_ok() {
+        return;
+    }
+    let _ = std::fs::create_dir_all(format!("{VERIF}/replays"));
+    let path = format!("{VERIF}/replays/{prop}-fatal-signal-in-implementation.json\0");
+    let line = format!("VIOLATION property={prop} replay={}\n  class=fatal-signal-in-implementation (the implementation crashed the check process; see the replay file for the case in progress)\n", path.trim_end_matches('\0'));
+    unsafe {
+        let p = &mut *std::ptr::addr_of_mut!(FATAL_PATH);
+        p[..path.len().min(160)].copy_from_slice(&path.as_bytes()[..path.len().min(160)]);
+        let l = &mut *std::ptr::addr_of_mut!(FATAL_LINE);
+        let n = line.len().min(256);
+        l[..n].copy_from_slice(&line.as_bytes()[..n]);
+        FATAL_LINE_LEN = n;
+        let pp = &mut *std::ptr::addr_of_mut!(FATAL_PROP);
+        pp.copy_from_slice(&prop.as_bytes()[..3]);
+        for sig in [6, 11, 4, 7, 8] {
+            signal(sig, on_fatal_signal_main);
+        }
+    }
+    TRACK.store(track, AtomicOrdering::Relaxed);
 }
 
 pub fn enter_worker_mode() {
